@@ -280,7 +280,7 @@ Definition dispatch_codecs (op : Z) (args : list tok) : value :=
     end
   | 1302, [TList ps] => VList (av1d_seq (mkAv1Dep [] false false false) ps)
   | 1303, [TList ps] => VList (av1_legacy_seq None ps)
-  | 1304, [TInt v] => VBytes (write_leb128 v)
+  | 1304, [TInt v] => VList [VBytes (write_leb128 v); VInt (encode_leb128 v)]
   | 1305, [TBytes b] => match read_leb128 b with Some (v, n) => VTag 0 (VList [VInt v; VInt n]) | None => VTag 1 (VInt 12) end
   | 1306, [TBytes b] =>
     match parse_obu_header b with
